@@ -650,7 +650,7 @@ def _coq_cases_sharded(ctx):
     from hsverif import coq
 
     def f(tag, imports, ok_fn, case_type, cases):
-        shard = {"cluster": 8, "world": 8, "cworld": 8, "node": 40}.get(tag, 400)
+        shard = {"cluster": 4, "world": 4, "cworld": 4, "node": 25}.get(tag, 400) * (1 if ctx.quick else 2)
         return coq.eval_cases(f"{ctx.pid}_{tag}", imports, ok_fn, case_type, cases, shard=shard, workers=14)
     return f
 
@@ -659,7 +659,10 @@ def run(ctx):
     ctx.coq_cases = _coq_cases_sharded(ctx)
     ctx.prove(FILES, allowed_axioms=(), trusted_base=TRUSTED)
     stats = []
-    for fam, n in ((FAMILIES[0], ctx.n(30, 600)), (FAMILIES[1], ctx.n(100, 3000)), (FAMILIES[2], ctx.n(16, 400)), (FAMILIES[3], ctx.n(14, 300)), (FAMILIES[4], ctx.n(100, 3000))):
+    for fam in FAMILIES:
+        # a case takes ~30 ms: worker processes (import of the package in each) only pay off for thorough
+        fam.parallel = fam.parallel and not ctx.quick
+    for fam, n in ((FAMILIES[0], ctx.n(24, 250)), (FAMILIES[1], ctx.n(100, 1500)), (FAMILIES[2], ctx.n(16, 150)), (FAMILIES[3], ctx.n(14, 120)), (FAMILIES[4], ctx.n(100, 1500))):
         stats.append(run_family(ctx, fam, n))
         ctx.log(f"family {fam.name}: {stats[-1]['cases']} cases, {stats[-1]['mismatches']} mismatches, "
                 f"{stats[-1]['oracle_failures']} oracle failures")
